@@ -222,7 +222,7 @@ pub fn run_corpus(ctx: &Ctx, sub: &str, rule_suffix: &str, oracle: &ItemOracle) 
 pub fn run_shared(ctx: &Ctx, sub: &str, which: &[&str]) -> SubReport {
     let do01 = which.contains(&"C01");
     let do16 = which.contains(&"C16");
-    run_corpus(ctx, sub, "oracles: byte round trip and segment offsets", &move |sub, it, rank, acc| {
+    run_corpus(ctx, sub, "oracles: byte round trip, segment offsets, and the path-based entry points (open through a regular file and through a named pipe, write_file over existing longer files) agreeing with parse / write", &move |sub, it, rank, acc| {
         let case = || it.desc.clone();
         if do01 {
             if let Some(p) = oracle_roundtrip(sub, &it.bytes, rank, &case, acc) {
@@ -239,6 +239,7 @@ pub fn run_shared(ctx: &Ctx, sub: &str, which: &[&str]) -> SubReport {
             if let Ok(Ok(p)) = parse_pkg(&it.bytes) {
                 acc.nontrivial += 1;
                 oracle_offsets(sub, &p, rank, &case, acc);
+                oracle_file_api(sub, &it.bytes, rank, &case, acc);
                 acc.sample(rank, || json!({"corpus_item": it.desc["spec"]["name"], "history": it.desc["history"], "bytes": it.bytes.len()}));
             }
         }
